@@ -4,6 +4,6 @@ CONSTANTS Cids <- MCCids
           MaxCalls = 1
           MaxActive = 1
           MaxDl = 1
-INVARIANTS TypeOK RejectedNeverTouched OnlyRequested GetBlockExact SelfCertified CachedBeforeHandOff LocalNotFetched
+INVARIANTS TypeOK RejectedNeverTouched OnlyRequested GetBlockExact SelfCertified CachedBeforeHandOff ReadyCached LocalNotFetched
            P_OnlyRequested
 CHECK_DEADLOCK FALSE
